@@ -141,9 +141,7 @@ def run(case, ctx, rng):
                 buf[:] = final
                 return h.update(buf, padding=True), bytes(buf)
             rb = call(reused_buffer)
-            if is_exc(rb, 'TypeError'):
-                ctx.notes['bytearray pieces refused by %s' % name] += 1
-            else:
+            if True:
                 ctx.eq('piecewise==reference', rb if is_exc(rb) else rb[0], ext, pieces_through='one reused bytearray', **det)
                 if not is_exc(rb):
                     ctx.eq('piecewise==reference', rb[1], final, pieces_through='one reused bytearray: final buffer left unchanged', **det)
